@@ -73,6 +73,60 @@ def run(check, prog):
     # ... and `an invalid scatterer gives -inf` rests on the constructors refusing
     # exactly the invalid ones (rule shared with C20)
     c20.constructors(check, prog)
+    # `violates a constraint gives -inf`: the overlap constraint is
+    # largest_overlap() <= fraction * diameter, so the constraint is right only if
+    # the largest overlap is (rule shared with C20)
+    c20.overlaps(check, prog)
+    model_constructor_wiring(check, prog)
+
+
+def model_constructor_wiring(check, prog):
+    """P8: "optics from the model" -- every argument a model class accepts on behalf
+    of the base Model reaches Model.__init__ under the parameter of the same name
+    (positionally or by keyword)."""
+    MQ = 'holopy.inference.model.Model'
+    base = prog.classes[MQ].methods['__init__']
+    bparams = [a.arg for a in base.args.args][1:]
+    n = 0
+    for cq in sorted(prog.subclasses(MQ)):
+        c = prog.classes[cq]
+        fd = c.methods.get('__init__')
+        if fd is None or cq == MQ:
+            continue
+        own = [a.arg for a in fd.args.args][1:] + [a.arg for a in fd.args.kwonlyargs]
+        shared = [p_ for p_ in bparams if p_ in own]
+        loc = prog.loc(cq, fd)
+        short = cq.rpartition('.')[2]
+        calls = [x for x in ast.walk(fd) if isinstance(x, ast.Call) and
+                 isinstance(x.func, ast.Attribute) and x.func.attr == '__init__' and
+                 ast.unparse(x.func.value) in ('super()', 'Model',
+                                               'super(%s, self)' % short)]
+        if len(calls) != 1:
+            check.bad('P8-model-constructor-wiring', short,
+                      'no single call of the base constructor', loc)
+            continue
+        call = calls[0]
+        args = list(call.args)
+        if ast.unparse(call.func.value) == 'Model':
+            args = args[1:]
+        bound = {}
+        for p_, a in zip(bparams, args):
+            bound[p_] = a
+        for k in call.keywords:
+            if k.arg is not None:
+                bound[k.arg] = k.value
+        for p_ in shared:
+            n += 1
+            a = bound.get(p_)
+            ok = isinstance(a, ast.Name) and a.id == p_
+            check.require(ok, 'P8-model-constructor-wiring', '%s(%s=)' % (short, p_),
+                          'handed to Model.__init__ as its `%s`' % p_, loc,
+                          fail_detail='Model.__init__ receives %s for `%s`: the value '
+                          'given to %s is %s' % (
+                              ast.unparse(a) if a is not None else 'nothing', p_, short,
+                              'replaced' if a is not None else 'dropped (the data\'s '
+                              'value is used instead)'))
+    check.floor('model constructor arguments shared with Model.__init__', n, 12)
 
 
 def is_neg_inf(t):
